@@ -64,7 +64,7 @@ type C18Case struct {
 func init() {
 	register("C18",
 		"kind sim: 2-16 concurrent requests (distinct marker headers; cacheable lookups of <=3 URLs, pass, error, restart, rate-counter increments on <=2 keys, penalty-box checks/adds on <=2 keys) released together (drawn per-request jitter 0-300us, GOMAXPROCS in {1,2,4,16}, direct ServeHTTP or through httptest.NewServer) against one Interpreter in a -race build; oracle: every response carries only its own marker (logs, echoed header), an order exists in which the harness' shared-state model (cached URLs, counter sums, penalty-box keys) yields each request's observation (exactly one MISS per URL, counter values are prefix sums of the increments in some order, penalty-box observations admit a first adder), each response equals (flows, logs, restarts, status, headers) what the same request produces sequentially on a fresh simulator brought to the observed shared state, sequential probe requests afterwards see the model's final state, and the race detector stays silent. kind plugin: 1-3 statements annotated with 2-4 @plugin comments served by generated executables (ok / exit 1 / not JSON / missing; jitter 0-30 ms); oracle: the multiset of plugin diagnostics in Linter.Errors equals what the plugins returned, no data race. non-trivial: >=2 requests touching the same shared object, or >=2 plugins returning >=1 diagnostic each; distinct by case",
-		genC18, checkC18, 120*time.Second)
+		genC18, checkC18, 20*time.Second) // three overruns in a row = hang; must fit into the quick tier's wall-clock cap
 }
 
 func genC18(t *rapid.T) any {
